@@ -1,4 +1,4 @@
-(** C15 (thorough tier only) -- stm density, IFC-67 against IAPWS-97 on tiles, by interval arithmetic. *)
+(** C15 (thorough tier only) -- steam density, IFC-67 against IAPWS-97 on tiles, by interval arithmetic. *)
 Set Warnings "-ambiguous-paths,-notation-overridden".
 From Coq Require Import ZArith QArith Qreals Reals List Bool Lra.
 From Interval Require Import Tactic.
@@ -8,9 +8,21 @@ Import ListNotations.
 Close Scope Q_scope.
 Open Scope R_scope.
 
-Lemma S0 t p : 550 <= t <= 590 -> 5000000 <= p <= 10000000 -> rel_stm t p <= 1 / 100.
+Lemma S3 t p : 100 <= t <= 150 -> 100000 <= p <= 101000 -> rel_stm t p <= 1 / 100.
+Proof. intros Ht Hp. unfold rel_stm. expose_stm. interval with (i_taylor t, i_bisect p, i_depth 14, i_degree 5). Qed.
+
+Lemma S36 t p : 450 <= t <= 500 -> 100000 <= p <= 1000000 -> rel_stm t p <= 1 / 100.
+Proof. intros Ht Hp. unfold rel_stm. expose_stm. interval with (i_taylor t, i_bisect p, i_depth 14, i_degree 5). Qed.
+
+Lemma S68 t p : 750 <= t <= 800 -> 100000 <= p <= 1000000 -> rel_stm t p <= 1 / 100.
+Proof. intros Ht Hp. unfold rel_stm. expose_stm. interval with (i_taylor t, i_bisect p, i_depth 14, i_degree 5). Qed.
+
+Lemma S14 t p : 250 <= t <= 300 -> 25000 <= p <= 50000 -> rel_stm t p <= 1 / 100.
 Proof. intros Ht Hp. unfold rel_stm. expose_stm. interval with (i_bisect t, i_bisect p, i_depth 14). Qed.
 
-Lemma S4 t p : 700 <= t <= 750 -> 5000000 <= p <= 10000000 -> rel_stm t p <= 1 / 100.
+Lemma S34 t p : 450 <= t <= 500 -> 25000 <= p <= 50000 -> rel_stm t p <= 1 / 100.
+Proof. intros Ht Hp. unfold rel_stm. expose_stm. interval with (i_bisect t, i_bisect p, i_depth 14). Qed.
+
+Lemma S54 t p : 650 <= t <= 700 -> 25000 <= p <= 50000 -> rel_stm t p <= 1 / 100.
 Proof. intros Ht Hp. unfold rel_stm. expose_stm. interval with (i_bisect t, i_bisect p, i_depth 14). Qed.
 
